@@ -517,6 +517,8 @@ def run(ctx):
     from . import c02
     c02.rule_r7(sfacts, ctx, rule_id="C03.R10")
     ctx.floor("C03.R10", 1, "atomic commit: tags under the lock acquisition that advances wpos")
+    c04.rule_r2(facts, c19_Retag(ctx, "C04.R2", "C03.R15"))     # "no more data will come" only from the handle count (seed s10-c03: a closed flag raised on handle drop)
+    ctx.floor("C03.R15", 6, "non-false end-of-stream verdicts (same rule as C04.R2)")
     c04.rule_r1(facts, c19_Retag(ctx, "C04.R1", "C03.R14"))     # two reads that are not one snapshot: liveness must be read first (seed s9-c03)
     ctx.floor("C03.R14", 3, "end-of-stream verdicts of the read ends (same rule as C04.R1)")
     c01.rule_r4(facts, ctx, rule_id="C03.R8")
